@@ -138,7 +138,11 @@ def check(rep, tier):
                 step_cases.append(fr.coq_step_case(r, some))
                 meta.append(cfg)
                 if n * N <= 12000:
-                    run_cases.append((cfg, fr.coq_run_case(r)))
+                    # whole-run replay (states compared after MANY model steps) only inside the stability range: outside it an unstable
+                    # trajectory amplifies rounding differences and model and implementation may legitimately drift apart
+                    import c06
+                    if c06.hypotheses(cfg, r)["stability"] and np.abs(r["XS"]).max() < 1:
+                        run_cases.append((cfg, fr.coq_run_case(r)))
             if len(rep.samples) < 4:
                 rep.samples.append(dict(config={k: v for k, v in cfg.items() if k != "over"}, steps_checked=len(some), nucleation_steps=len(ev)))
           for v in rep.violations[nv0:]:
